@@ -12,7 +12,8 @@ Four families of models (one model = one generated layout x one clock mode):
             gaps, duplicated value}; index parameter software only / write method / read + write methods; readonly or not
   limits    <p>_min, <p>_max, both, <p>_limits (automatic TupleOf), <p>_limits typed LimitsType on int / float / scaled
             base parameters (custom parameter x and predefined target), limits optionally preset by configuration
-  control   1-3 HasOutputModule controllers on one HasControlledBy output (+ optionally one controller without output)
+  control   1-3 HasOutputModule controllers on one HasControlledBy output (+ optionally one controller without output);
+            nodes with 2-3 such outputs, each with its own 1-2 controllers
 
 Search: a state is the history (tuple of operations) that reaches it.  Each expansion builds a fresh node, replays the
 history and applies one more operation (live frappy objects do not deep-copy).  Level-synchronous BFS to a depth bound;
@@ -38,8 +39,9 @@ Oracle (written from the statement, not from the implementation):
      an accepted write of v leaves the float on a value with minimal |value - v| (exact rational arithmetic)
   L  a write of the base parameter with a value outside the current limits (cache before the write) is refused and
      leaves the cache of the base parameter untouched; an inverted pair is refused
-  C  at most one attached controller has control_active; controlled_by names exactly it (self when none); after a
-     take-over the previous controller is off
+  C  for every output of the node: at most one of its controllers has control_active; its controlled_by names exactly
+     that one (self when none); after a take-over the previous controller is off; an operation on one output or on one
+     of its controllers does not change controlled_by / control_active of another output's group
 
 Oracle calibration (weaker reading taken wherever the statement leaves latitude):
   * values are compared only between parameters that are not in error state (readerror set = "not initialized" or a
@@ -862,11 +864,24 @@ class _CtrlHW(_Ctrl):
 
 
 class ControlModel(Model):
+    """one node with one or more output modules; output number g has spec['groups'][g] controllers attached
+    (old specs: 'k' = controllers of the only output)"""
     family = 'control'
 
     def setup(self):
         s = self.spec
-        self.ctrls = [f'c{k + 1}' for k in range(s['k'])]
+        sizes = s['groups'] if 'groups' in s else [s['k']]
+        # group 0 keeps the historical names out / c1..; further outputs are out2 / d1.., out3 / e1..
+        self.groups = []
+        for g, k in enumerate(sizes):
+            out = 'out' if g == 0 else f'out{g + 1}'
+            self.groups.append((out, [f'{"cdefgh"[g]}{i + 1}' for i in range(k)]))
+        self.ctrls = [c for _, cs in self.groups for c in cs]
+        self.group_of = {}
+        for g, (out, cs) in enumerate(self.groups):
+            self.group_of[out] = g
+            for c in cs:
+                self.group_of[c] = g
         self.free = ['cfree'] if s['free'] else []
         ops = self.ops
         # the target values play no role in the hand-over: one value keeps the state space small
@@ -875,22 +890,28 @@ class ControlModel(Model):
             ops.append(['d', 'w', c, 1])
         for c in self.ctrls:
             ops.append(['d', 'u', c, 1])
-        ops.append(['c', 'w', 'out', 1])
-        ops.append(['d', 'w', 'out', 1])
-        ops.append(['c', 'r', 'out'])
-        ops.append(['c', 'r', self.ctrls[0]])
+        for out, cs in self.groups:
+            ops.append(['c', 'w', out, 1])
+            ops.append(['d', 'w', out, 1])
+            ops.append(['c', 'r', out])
+            ops.append(['c', 'r', cs[0]])
 
     def cfg(self):
         s = self.spec
         cfg = {}
         if s['out_first']:
-            cfg['out'] = {'cls': _Out}
-        for k, c in enumerate(self.ctrls):
-            cfg[c] = {'cls': _CtrlHW if (s['hwctrl'] and k == 0) else _Ctrl, 'output_module': 'out'}
+            for out, _ in self.groups:
+                cfg[out] = {'cls': _Out}
+        first = True
+        for out, cs in self.groups:
+            for c in cs:
+                cfg[c] = {'cls': _CtrlHW if (s['hwctrl'] and first) else _Ctrl, 'output_module': out}
+                first = False
         for c in self.free:
             cfg[c] = {'cls': _Ctrl}
         if not s['out_first']:
-            cfg['out'] = {'cls': _Out}
+            for out, _ in self.groups:
+                cfg[out] = {'cls': _Out}
         return cfg
 
     def hidden(self, world):
@@ -901,7 +922,7 @@ class ControlModel(Model):
             return 'update-target-by-active-controller'
         if op[1] == 'r':
             return 'read'
-        if op[2] == 'out':
+        if op[2] in self.group_of and op[2] not in self.ctrls:
             return 'write-output'
         return 'takeover' if op[2] in self.ctrls else 'write-unattached-controller'
 
@@ -914,49 +935,71 @@ class ControlModel(Model):
         who, what, target = op[0], op[1], op[2]
         mod = world.mods[target]
         if what == 'u':
-            return world.driver(world.mods['out'].update_target, target, float(op[3]))
+            out = self.groups[self.group_of[target]][0]
+            return world.driver(world.mods[out].update_target, target, float(op[3]))
         if what == 'r':
-            return world.client('read', target, 'controlled_by' if target == 'out' else 'control_active')
+            return world.client('read', target, 'control_active' if target in self.ctrls else 'controlled_by')
         if who == 'c':
             return world.client('change', target, 'target', op[3])
         return world.driver(mod.write_target, float(op[3]))
+
+    def control_state(self, world, cache, where, out, cs):
+        """(active controllers of this output, name shown by controlled_by or None when in error) as cached / as streamed"""
+        # what the codes of controlled_by mean is taken from the datainfo a client gets in the description
+        members = world.mods[out].parameters['controlled_by'].datatype.export_datatype()['members']
+        names = {v: k for k, v in members.items()}
+        if where == 'cache':
+            active = [c for c in cs if cache[f'{c}:control_active'][0] is True]
+            cb = cache[f'{out}:controlled_by']
+            cbname = names.get(cb[0], f'<{cb[0]!r}>') if cb[1] is None else None
+        else:
+            vals = {c: world.seen(c, 'control_active') for c in cs}
+            active = [c for c, v in vals.items() if v and v[0] == 'ok' and v[1] is True]
+            v = world.seen(out, 'controlled_by')
+            cbname = names.get(v[1], f'<{v[1]!r}>') if v and v[0] == 'ok' else None
+        return active, cbname
 
     def invariants(self, world, pre, op, res):
         post = world.cache()
         found = []
         opc = self.opclass(op) if op else 'start'
-        # what the codes of controlled_by mean is taken from the datainfo a client gets in the description
-        members = world.mods['out'].parameters['controlled_by'].datatype.export_datatype()['members']
-        names = {v: k for k, v in members.items()}
+        # (1) an operation on one output or on one of its controllers leaves the control state of every other output alone
+        if pre is not None and op and op[2] in self.group_of:
+            g = self.group_of[op[2]]
+            for h, (out, cs) in enumerate(self.groups):
+                if h == g:
+                    continue
+                for key in [f'{out}:controlled_by'] + [f'{c}:control_active' for c in cs]:
+                    if pre[key][:2] != post[key][:2]:
+                        found.append((f'control:cache:control-state-of-another-output-changed:after-{opc}',
+                                      f'{op!r} concerns {self.groups[g][0]} but changed {key} from {pre[key][:2]!r} '
+                                      f'to {post[key][:2]!r}'))
+                        return found
+        # (2) per output: at most one controller active, controlled_by names exactly it
         for where in ('cache', 'stream'):
-            if where == 'cache':
-                active = [c for c in self.ctrls if post[f'{c}:control_active'][0] is True]
-                cb = post['out:controlled_by']
-                cbname = names.get(cb[0], f'<{cb[0]!r}>') if cb[1] is None else None
-            else:
-                vals = {c: world.seen(c, 'control_active') for c in self.ctrls}
-                active = [c for c, v in vals.items() if v and v[0] == 'ok' and v[1] is True]
-                v = world.seen('out', 'controlled_by')
-                cbname = names.get(v[1], f'<{v[1]!r}>') if v and v[0] == 'ok' else None
-            if len(active) > 1:
-                prev = [c for c in self.ctrls if pre and pre[f'{c}:control_active'][0] is True]
-                what = 'previous-controller-left-on' if opc == 'takeover' and prev and prev[0] in active else 'two-active'
-                found.append((f'control:{where}:{what}:after-{opc}',
-                              f'{where}: controllers {active} are all marked control_active (controlled_by = {cbname})'))
-            elif cbname is None:
-                pass
-            elif len(active) == 1 and cbname != active[0]:
-                found.append((f'control:{where}:output-names-{"self" if cbname == "self" else "another-module"}'
-                              f'-while-a-controller-is-active:after-{opc}',
-                              f'{where}: {active[0]} is marked control_active but out.controlled_by = {cbname}'))
-            elif not active and cbname != 'self':
-                found.append((f'control:{where}:output-names-inactive-controller:after-{opc}',
-                              f'{where}: no controller is marked control_active but out.controlled_by = {cbname}'))
-            if found:
-                break
-        if not found and op and opc == 'takeover' and res[0] == 'ok':
+            for out, cs in self.groups:
+                active, cbname = self.control_state(world, post, where, out, cs)
+                if len(active) > 1:
+                    prev = [c for c in cs if pre and pre[f'{c}:control_active'][0] is True]
+                    what = 'previous-controller-left-on' if opc == 'takeover' and prev and prev[0] in active else 'two-active'
+                    found.append((f'control:{where}:{what}:after-{opc}',
+                                  f'{where}: controllers {active} of {out} are all marked control_active '
+                                  f'(controlled_by = {cbname})'))
+                elif cbname is None:
+                    pass
+                elif len(active) == 1 and cbname != active[0]:
+                    found.append((f'control:{where}:output-names-{"self" if cbname == "self" else "another-module"}'
+                                  f'-while-a-controller-is-active:after-{opc}',
+                                  f'{where}: {active[0]} is marked control_active but {out}.controlled_by = {cbname}'))
+                elif not active and cbname != 'self':
+                    found.append((f'control:{where}:output-names-inactive-controller:after-{opc}',
+                                  f'{where}: no controller of {out} is marked control_active but {out}.controlled_by = {cbname}'))
+                if found:
+                    return found
+        if op and opc == 'takeover' and res[0] == 'ok':
             j = op[2]
-            active = [c for c in self.ctrls if post[f'{c}:control_active'][0] is True]
+            cs = self.groups[self.group_of[j]][1]
+            active = [c for c in cs if post[f'{c}:control_active'][0] is True]
             if active != [j]:
                 found.append(('control:cache:takeover-accepted-but-taker-not-controlling',
                               f'write target on {j} accepted; active controllers afterwards: {active}'))
@@ -964,10 +1007,20 @@ class ControlModel(Model):
 
 
 def control_specs(tier):
-    rows = [(1, False, True, False), (2, False, True, False), (3, False, True, False), (2, True, True, False),
-            (2, False, False, True), (3, True, False, True)]
-    return [dict(family='control', k=k, free=free, out_first=of, hwctrl=hw, clock=c)
-            for (k, free, of, hw) in rows for c in ('slow', 'fast')]
+    rows = [([1], False, True, False), ([2], False, True, False), ([3], False, True, False), ([2], True, True, False),
+            ([2], False, False, True), ([3], True, False, True),
+            # several outputs in one node, each with its own controllers
+            ([1, 1], False, True, False), ([2, 1], False, False, True)]
+    if tier == 'thorough':
+        rows += [([2, 2], False, True, False), ([1, 1, 1], False, False, False), ([1, 2], True, True, True)]
+    res = []
+    for groups, free, of, hw in rows:
+        for c in ('slow', 'fast'):
+            spec = dict(family='control', free=free, out_first=of, hwctrl=hw, clock=c)
+            # one output keeps the historical spec key, so that recorded replay files stay valid
+            spec.update({'k': groups[0]} if len(groups) == 1 else {'groups': groups})
+            res.append(spec)
+    return res
 
 
 # ---------------------------------------------------------------------------------------------
